@@ -621,6 +621,7 @@ func (mgr *Manager) invalidateTags(updatedStreams, resetStreams, addedStreams bi
 }
 
 func (mgr *Manager) importPcapJob(filenames []string, nextStreamID uint64, existingIndexes []*index.Reader, existingIndexesReleaser indexReleaser) {
+	verifJobBegin("import")
 	processedFiles, usedNewStreamIDs, createdIndexes, updatedStreams, resetStreams, addedStreams, err := mgr.builder.FromPcap(mgr.PcapDir, filenames, existingIndexes)
 	if err != nil {
 		log.Printf("importPcapJob(%q) failed: %s", filenames, err)
@@ -639,7 +640,9 @@ func (mgr *Manager) importPcapJob(filenames []string, nextStreamID uint64, exist
 		newStreamCount += idx.StreamCount()
 		newPacketCount += idx.PacketCount()
 	}
+	verifJobGate("import")
 	mgr.jobs <- func() {
+		defer verifJobEnd("import")
 		mgr.allStreams = allStreams
 		existingIndexesReleaser.release(mgr)
 		// add new indexes if some were created
@@ -742,6 +745,7 @@ outer:
 }
 
 func (mgr *Manager) mergeIndexesJob(offset int, indexes []*index.Reader, releaser indexReleaser) {
+	verifJobBegin("merge")
 	mergedIndexes, err := index.Merge(mgr.IndexDir, indexes)
 	if err != nil {
 		indexFilenames := []string{}
@@ -759,7 +763,9 @@ func (mgr *Manager) mergeIndexesJob(offset int, indexes []*index.Reader, release
 		streamsDiff -= idx.StreamCount()
 		packetsDiff -= idx.PacketCount()
 	}
+	verifJobGate("merge")
 	mgr.jobs <- func() {
+		defer verifJobEnd("merge")
 		// replace old indexes if successfully created
 		if len(mergedIndexes) == 0 || err != nil {
 			mgr.nUnmergeableIndexes++
@@ -791,6 +797,7 @@ func (mgr *Manager) mergeIndexesJob(offset int, indexes []*index.Reader, release
 }
 
 func (mgr *Manager) updateTagJob(name string, t tag, tagDetails map[string]query.TagDetails, converters map[string]index.ConverterAccess, indexes []*index.Reader, releaser indexReleaser) {
+	verifJobBegin("tag")
 	err := func() error {
 		q, err := query.Parse(t.definition)
 		if err != nil {
@@ -812,7 +819,9 @@ func (mgr *Manager) updateTagJob(name string, t tag, tagDetails map[string]query
 		t.Matches = bitmask.LongBitmask{}
 	}
 	t.Uncertain = bitmask.LongBitmask{}
+	verifJobGate("tag")
 	mgr.jobs <- func() {
+		defer verifJobEnd("tag")
 		// don't touch the tag if it was modified
 		if ot, ok := mgr.tags[name]; ok && ot.definition == t.definition {
 			t.color = ot.color
@@ -1422,6 +1431,7 @@ func (mgr *Manager) startConverterJobIfNeeded() {
 }
 
 func (mgr *Manager) convertStreamJob(allConverters []*converters.CachedConverter, allStreamIDs []*bitmask.LongBitmask, indexes []*index.Reader, releaser indexReleaser) {
+	verifJobBegin("convert")
 	type job struct {
 		streamID  uint64
 		converter int
@@ -1537,7 +1547,9 @@ func (mgr *Manager) convertStreamJob(allConverters []*converters.CachedConverter
 		}
 	}
 
+	verifJobGate("convert")
 	mgr.jobs <- func() {
+		defer verifJobEnd("convert")
 		mgr.converterJobRunning = false
 
 		for i, converter := range allConverters {
